@@ -457,6 +457,9 @@ func c09SchedScenarios(tier string) []c09Params {
 		S("renamenx", one("RENAMENX kb k0")),
 		S("jset-expire", append(one("EXPIRE kb a 100"), []string{"JSET", "kb", "j", "x", "1"})),
 		S("flushdb", one("FLUSHDB", "SET kb z POINT 1 1")),
+		// one name used for a hook, deleted, then used for a channel while the rewrite scans (and the other way round)
+		{QuickBound: 1, Name: "hook-then-channel-of-the-same-name", Pre: pre, Writers: [][][]string{one("SETHOOK nx http://127.0.0.1:1/x NEARBY k9 FENCE POINT 50 50 100", "DELHOOK nx", "SETCHAN nx NEARBY k9 FENCE POINT 50 50 100")}},
+		{QuickBound: 1, Name: "channel-then-hook-of-the-same-name", Pre: pre, Writers: [][][]string{one("SETCHAN ny NEARBY k9 FENCE POINT 50 50 100", "DELCHAN ny", "SETHOOK ny http://127.0.0.1:1/x NEARBY k9 FENCE POINT 50 50 100")}},
 		// commands whose effect depends on the document they meet (array element removal / append)
 		{Name: "jdel-array-element-ahead-of-cursor", Pre: append(append([][]string{}, pre...), []string{"SET", "kc", "j", "STRING", `{"list":["a","b","c"]}`}), Writers: [][][]string{one("JDEL kc j list.0")}, NoModel: true},
 		// the same edits on an array inside a GeoJSON Feature (JSET / JDEL re-enter SET for geometries)
